@@ -1560,7 +1560,7 @@ class Interp1DAkima(InterpAlgorithmFixed):
         x = x.ravel()
 
         if self.vec_coeff is None:
-            self.coeffs = set()
+            self._vec_cached = set()
             self.vec_coeff = np.empty((ngrid + 1, 4))
 
         # Check for extrapolation conditions. if off upper end of table (idx = ient-1)
@@ -1592,7 +1592,7 @@ class Interp1DAkima(InterpAlgorithmFixed):
         elif 1 in needed:
             needed.add(0)
 
-        uncached = needed.difference(self.coeffs)
+        uncached = needed.difference(self._vec_cached)
         if len(uncached) > 0:
             uncached = sorted(uncached)
             a, b, c, d = self.compute_coeffs_vectorized(uncached)
@@ -1601,7 +1601,7 @@ class Interp1DAkima(InterpAlgorithmFixed):
             self.vec_coeff[uncached, 1] = b
             self.vec_coeff[uncached, 2] = c
             self.vec_coeff[uncached, 3] = d
-            self.coeffs.update(uncached)
+            self._vec_cached.update(uncached)
         a = self.vec_coeff[idx_coeffs, 0]
         b = self.vec_coeff[idx_coeffs, 1]
         c = self.vec_coeff[idx_coeffs, 2]
